@@ -69,6 +69,8 @@ TFinal == /\ IsEvent("final")
           /\ \A v \in Live : stack[v] = <<>>
           /\ \A i \in 1..Len(E.depths) : E.depths[i][1] \in Live /\ E.depths[i][2] = Len(stack[E.depths[i][1]])
           /\ E.allowed /\ E.debug_same /\ E.named_same
+          \* numeric verdicts computed by the harness against the pure-function form (C09): all must hold
+          /\ Has(E, "verdicts") => \A i \in 1..Len(E.verdicts) : E.verdicts[i][2]
           /\ UNCHANGED vars
 TNext == TReg \/ TNew \/ TSet \/ TRestore \/ TLinUse \/ TLinUnuse \/ TProbe \/ TUnprobe \/ TEval \/ TFinal
 TSpec == TInit /\ [][TNext]_tvars
